@@ -8,8 +8,9 @@ use std::path::Path;
 
 // a group's rules are separated by `;` here; in the file they stand on lines of their own with an EMPTY LINE between them
 // (doc-cli: empty lines inside a group's rule list are allowed; only after a description does an empty line end the group)
+// the groups of the first file do not commute (Alpha feeds Beta and Gamma, Beta bleeds Gamma), so a selection delivered in another order is visible
 const FILES: [&[(&str, &str)]; 3] = [
-    &[("Alpha", "a > e;p > b / #_"), ("Beta", "e > i / _#"), ("Gamma", "t > d / V_V")],
+    &[("Alpha", "a > e;p > b / #_"), ("Beta", "e > i / _#"), ("Gamma", "t > d / V_e")],
     &[("One", "k > g / V_V;m > n / _#"), ("Two", "i > u / _#")],
     &[("Solo", "s > z / V_V")],
 ];
